@@ -326,7 +326,7 @@ fn gen_headers(rng: &mut Prng) -> Value {
     Value::Array((0..rng.below(4)).map(|_| json!([*rng.pick(HNAMES), *rng.pick(HVALUES)])).collect())
 }
 
-fn gen_calls(rng: &mut Prng) -> Vec<Value> {
+fn gen_calls(rng: &mut Prng, small: bool) -> Vec<Value> {
     // the generator follows the caller protocol: (kind, released)
     let mut slots: Vec<(K, bool)> = Vec::new();
     let mut calls: Vec<Value> = Vec::new();
@@ -358,7 +358,7 @@ fn gen_calls(rng: &mut Prng) -> Vec<Value> {
                 let bytes: Vec<u8> = match rng.below(6) {
                     0 => vec![],
                     1 => vec![rng.below(256) as u8],
-                    2 => vec![b'x'; 70000 + rng.below(1000)],
+                    2 => vec![b'x'; if small { 300 } else { 70000 } + rng.below(1000)],
                     _ => rng.pick(BODIES).as_bytes().to_vec(),
                 };
                 let cap = match rng.below(4) {
@@ -506,7 +506,8 @@ fn gen(args: &Args, emit: &mut dyn FnMut(Value)) {
         // generate, then let the real library fill in what it produced; a sequence the executor refuses
         // (the generator's bookkeeping of slots is approximate where NULL results change the protocol) is re-drawn
         for _attempt in 0..20 {
-            let calls = gen_calls(&mut rng);
+            // `--tier miri`: the generator itself runs under the interpreter (tools/miri_c18.sh): no 70 kB payloads
+            let calls = gen_calls(&mut rng, args.tier == "miri");
             let case = json!({"calls": calls});
             if let Ok(ex) = execute(&case, true) {
                 emit(json!({"calls": ex.filled, "sizes": ex.sizes}));
